@@ -312,7 +312,10 @@ type StateKey uint64
 //
 // This uses FNV-1a hash for speed and decent distribution.
 func ComputeStateKey(nfaStates []nfa.StateID) StateKey {
-	return ComputeStateKeyWithWord(nfaStates, false)
+	sorted := make([]nfa.StateID, len(nfaStates))
+	copy(sorted, nfaStates)
+	sortStateIDs(sorted)
+	return ComputeStateKeyWithWord(sorted, false)
 }
 
 // ComputeStateKeyWithWord computes a hash-based key including word context.
@@ -326,6 +329,7 @@ func ComputeStateKeyWithWord(nfaStates []nfa.StateID, isFromWord bool) StateKey 
 // and match delay flag. With 1-byte match delay, the same set of NFA states can
 // produce both a match and non-match DFA state depending on whether the SOURCE
 // state contained an NFA match state. This function distinguishes them in the cache.
+// Unlike ComputeStateKey, the key depends on the order of nfaStates.
 func ComputeStateKeyWithWordAndMatch(nfaStates []nfa.StateID, isFromWord bool, isMatch bool) StateKey {
 	if len(nfaStates) == 0 {
 		// Encode (isFromWord, isMatch) into 2 bits for empty states
@@ -339,13 +343,11 @@ func ComputeStateKeyWithWordAndMatch(nfaStates []nfa.StateID, isFromWord bool, i
 		return key
 	}
 
-	// Sort NFA states for canonical ordering
-	// This ensures {1,2,3} and {3,2,1} produce the same key
-	sorted := make([]nfa.StateID, len(nfaStates))
-	copy(sorted, nfaStates)
-	sortStateIDs(sorted)
-
-	// Hash the sorted states using FNV-1a
+	// Hash the states in the order given (NFA thread priority order), as Rust's
+	// lazy DFA does. The order is part of the state's identity: leftmost-first
+	// break-at-match in determinize drops every NFA state that FOLLOWS the Match
+	// state, so {a-loop, Match} and {Match, a-loop} behave differently and must
+	// not share one cached DFA state.
 	h := fnv.New64a()
 
 	// Include isFromWord and isMatch in the hash FIRST to distinguish states
@@ -358,7 +360,7 @@ func ComputeStateKeyWithWordAndMatch(nfaStates []nfa.StateID, isFromWord bool, i
 	}
 	_, _ = h.Write([]byte{flags})
 
-	for _, sid := range sorted {
+	for _, sid := range nfaStates {
 		// Write each StateID as 4 bytes (uint32)
 		// hash.Hash.Write never returns an error per documentation
 		_, _ = h.Write([]byte{
